@@ -70,11 +70,41 @@ static int _seek_helper(OggVorbis_File *vf, ogg_int64_t offset)
   __CPROVER_ensures((vf->datasource != NULL && vf->callbacks.seek_func == NULL && OLD(vf->offset) != offset) ==> RV == OV_EREAD);
 
 /* the strong contract of ov_clear (enforced in unit vf_ov_clear, used at call sites) */
+#ifdef VERIF_ENFORCE_ov_clear
+/* callees of ov_clear (their own ownership contracts: C13 units of info.c / block.c; libogg assumed) */
+int vorbis_block_clear(vorbis_block *vb) __CPROVER_assigns(*vb) __CPROVER_ensures(1);
+void vorbis_dsp_clear(vorbis_dsp_state *v) __CPROVER_assigns(*v) __CPROVER_ensures(1);
+int ogg_stream_clear(ogg_stream_state *os) __CPROVER_assigns(*os) __CPROVER_ensures(1);
+int ogg_sync_clear(ogg_sync_state *oy) __CPROVER_assigns(*oy) __CPROVER_ensures(1);
+unsigned long g_vi_clears, g_vc_clears;
+void vorbis_info_clear(vorbis_info *vi) __CPROVER_assigns(*vi, g_vi_clears) __CPROVER_ensures(g_vi_clears == OLD(g_vi_clears) + 1);
+void vorbis_comment_clear(vorbis_comment *vc) __CPROVER_assigns(*vc, g_vc_clears) __CPROVER_ensures(g_vc_clears == OLD(g_vc_clears) + 1);
+#define TBL_OK(p, n) ((p) == NULL || FRESH((p), (n)))
+#endif
 int ov_clear(OggVorbis_File *vf)
   __CPROVER_requires(vf == NULL || FRESH(vf, sizeof(*vf)))
   __CPROVER_requires(vf == NULL || vf->callbacks.close_func == NULL || vf->callbacks.close_func == verif_close_cb)
+#ifdef VERIF_ENFORCE_ov_clear
+  /* a handle in ANY life-cycle state (zeroed, half-open, open, after failures):
+     every table pointer is NULL or owns its table; vi and vc come in a pair */
+  __CPROVER_requires(vf == NULL || (vf->links >= 0 && vf->links <= (1 << 20) &&
+                     ((vf->vi == NULL) == (vf->vc == NULL)) && (vf->vi == NULL || vf->links >= 1) &&
+                     TBL_OK(vf->vi, sizeof(vorbis_info) * vf->links) && TBL_OK(vf->vc, sizeof(vorbis_comment) * vf->links) &&
+                     TBL_OK(vf->dataoffsets, 8) && TBL_OK(vf->pcmlengths, 8) && TBL_OK(vf->serialnos, 8) && TBL_OK(vf->offsets, 8)))
+  __CPROVER_requires(g_vi_clears == 0 && g_vc_clears == 0)
+  __CPROVER_assigns(g_vi_clears, g_vc_clears)
+  __CPROVER_assigns((vf != NULL && vf->vi != NULL): __CPROVER_object_whole(vf->vi), __CPROVER_object_whole(vf->vc))
+  __CPROVER_frees(vf->vi, vf->vc, vf->dataoffsets, vf->pcmlengths, vf->serialnos, vf->offsets)
+  /* every link's info and comments are cleared exactly once */
+  __CPROVER_ensures((vf != NULL && OLD(vf->vi) != NULL) ==> (g_vi_clears == (unsigned long)OLD(vf->links) && g_vc_clears == g_vi_clears))
+#endif
   __CPROVER_assigns(vf != NULL: *vf; g_close_calls, g_clear_calls)
+#ifdef VERIF_ENFORCE_ov_clear
+  __CPROVER_requires(vf != NULL)   /* ov_clear(NULL) is the trivial `return 0`; OLD() cannot be guarded */
+  __CPROVER_ensures(RV == 0)
+#else
   __CPROVER_ensures(RV == 0 && g_clear_calls == OLD(g_clear_calls) + 1)
+#endif
   /* the close callback runs exactly once iff there is a data source and a callback */
   __CPROVER_ensures(g_close_calls == OLD(g_close_calls) +
                     ((vf != NULL && OLD(vf->datasource) != NULL && OLD(vf->callbacks.close_func) != NULL) ? 1 : 0))
